@@ -429,7 +429,77 @@ func init() {
 		e.Explore(cells, func(o *scen.Outcome, t *report.Tally) []report.Finding {
 			return e.judgeC11(o, t, layoutDevKey(o.Cell.Meta.(layoutMeta).D), &sampled)
 		})
+		e.c11EmbeddedPlainInterface()
 	})
+}
+
+// c11EmbeddedPlainInterface (round 5, C11-m9): a converter interface may take methods from an ordinary interface of the
+// same file.  That interface is not a converter interface: it is carried over with its doc comment and the comments of
+// its methods (the enumerated comments contain no notation lines, so nothing of them may go).
+func (e *Env) c11EmbeddedPlainInterface() {
+	docs := []struct{ id, first, second string }{
+		{"line-docs", "\t// Load copies the row.\n", "\t// Store copies it back\n\t// in two lines.\n"},
+		{"block-doc", "\t/* Load copies the row. */\n", "\t// Store copies it back.\n"},
+		{"trailing", "", ""},
+		{"doc-and-trailing", "\t// Load copies the row.\n", ""},
+	}
+	for pos := 0; pos < 2; pos++ {
+		for own := 0; own < 2; own++ {
+			for _, dc := range docs {
+				trail := ""
+				if dc.id == "trailing" || dc.id == "doc-and-trailing" {
+					trail = " // kept with its method"
+				}
+				part := "// Part is an ordinary interface with documented methods.\ntype Part interface {\n" + dc.first + "\tLoad(*S) *D" + trail + "\n" + dc.second + "\tStore(*D) *S\n}\n"
+				conv := "type Convergen interface {\n\tPart\n"
+				if own == 1 {
+					conv += "\t// Own has a comment of its own.\n\tOwn(*S) *D\n"
+				}
+				conv += "}\n"
+				setup := "//go:build convergen\n\npackage x\n\ntype S struct{ A int }\n\ntype D struct{ A int }\n\n"
+				if pos == 0 {
+					setup += part + "\n" + conv
+				} else {
+					setup += conv + "\n" + part
+				}
+				id := fmt.Sprintf("c11emb_%d_%d_%s", pos, own, dc.id)
+				cell := &scen.Cell{ID: id, Family: "embedded-plain-interface", Files: map[string]string{"setup.go": setup}}
+				e.Explore([]*scen.Cell{cell}, func(o *scen.Outcome, t *report.Tally) []report.Finding {
+					t.AddEvaluations(1)
+					t.AddValidated(1)
+					t.Family("embedded-plain-interface", o.Res.Exit == 0, true)
+					if o.Res.Crashed() {
+						return []report.Finding{{Key: "C11|embedded-plain-interface|crash", What: clip(o.Res.Stderr, 300)}}
+					}
+					if o.Res.Exit != 0 {
+						t.Outcome("embedded-plain-interface: rejected")
+						return nil // whether embedding is accepted is C03/C17's business
+					}
+					t.Outcome("embedded-plain-interface: accepted")
+					t.Nontrivial(id)
+					block := func(src string) string {
+						i := strings.Index(src, "// Part is an ordinary interface")
+						if i < 0 {
+							return "<no Part interface>"
+						}
+						rest := src[i:]
+						if j := strings.Index(rest, "\n}\n"); j >= 0 {
+							rest = rest[:j+3]
+						}
+						return rest
+					}
+					wantSrc, err := format.Source([]byte(setup))
+					if err != nil {
+						return []report.Finding{{Key: "C11|harness-cell-invalid|embedded-plain-interface", What: err.Error()}}
+					}
+					if want, got := block(string(wantSrc)), block(o.Out); want != got {
+						return []report.Finding{{Key: fmt.Sprintf("C11|embedded-plain-interface|changed|pos=%d|docs=%s", pos, dc.id), What: fmt.Sprintf("the ordinary interface that the converter interface embeds is not carried over intact: expected\n%s\nobserved\n%s", want, got)}}
+					}
+					return nil
+				})
+			}
+		}
+	}
 }
 
 // gotCommentsEarly counts the comments of f whose text is txt.
